@@ -1,0 +1,32 @@
+//go:build !verif
+
+package io
+
+// Verification hooks (see verif_on.go). With the "verif" build tag off these
+// are compile-time no-ops: every call site is guarded by `if verifOn`.
+const verifOn = false
+
+const (
+	verifSideEncode = 0
+	verifSideDecode = 1
+	verifSideHeader = 2
+)
+
+const (
+	verifStart = iota
+	verifWaitEnter
+	verifSpin
+	verifAcquired
+	verifCancelSeen
+	verifIOBegin
+	verifIOEnd
+	verifEOS
+	verifPublish
+	verifPostPublish
+	verifCancelStored
+	verifExit
+)
+
+func verifStep(side int, blockID int32, step int, token *int32) {}
+
+func verifRecovered(side int, blockID int32, r any) {}
